@@ -1,6 +1,10 @@
 import Dashu.Driver.Loop
 import Dashu.Model.NT.Modular
 import Dashu.Model.NT.ModInvLarge
+import Dashu.Model.NT.ModLargeK
+import Dashu.Model.NT.ModAllK
+import Dashu.Model.NT.ModPowK
+import Dashu.Model.NT.ModTags
 import Dashu.Model.NT.Gcd
 import Dashu.Model.NT.Lehmer
 import Dashu.Model.NT.Root
@@ -47,7 +51,7 @@ def kindStr : Kind → String
 def redTag (W : Nat) (r : Ring) (a : Int) : String :=
   let x := a.natAbs
   let sz := match r.kind with
-    | .large => if x < 2 ^ (2 * W) then "small" else if wordLen W (x * 2 ^ r.k) ≥ r.n then "div" else "short"
+    | .large => if x < 2 ^ (2 * W) then "small" else if wordLen W (x * 2 ^ r.k) ≥ r.n then "div." ++ redArmTag W r x else "short"
     | _ => if x < 2 ^ W then "word" else if x < 2 ^ (2 * W) then "dword"
            else if (natWords W x).length % 2 = 0 then "large-even" else "large-odd"
   "red." ++ kindStr r.kind ++ "." ++ sz ++ (if r.k = 0 then ".k0" else ".ks") ++ (if a < 0 then ".neg" else "")
@@ -55,8 +59,8 @@ def redTag (W : Nat) (r : Ring) (a : Int) : String :=
 def mulTag (W : Nat) (r : Ring) (a b : Nat) : String :=
   match r.kind with
   | .large =>
-    if wordLen W a + wordLen W b > r.n then "mul.large.div"
-    else if (a * b) / 2 ^ r.k ≥ r.M then "mul.large.nodiv.sub" else "mul.large.nodiv.nosub"
+    (if wordLen W a + wordLen W b > r.n then "mul.large.div"
+     else if (a * b) / 2 ^ r.k ≥ r.M then "mul.large.nodiv.sub" else "mul.large.nodiv.nosub") ++ "." ++ mulArmTag W r a b
   | k => "mul." ++ kindStr k
 
 def invTag (W : Nat) (r : Ring) (raw : Nat) : String :=
@@ -79,22 +83,27 @@ def ann (s : String) : String := " #" ++ s
 /-- C13: every op runs the MIRRORED kernels (`Model/NT/ModKernels.lean`, `ModInvLarge.lean`: `rem_word`,
     two-step `rem_dword`, `fast_rem_by_normalized_(d)word`, `PreMulInv*::mul/sqr` through num-modular's
     dividers, `inv_large` through C12's extended-gcd kernels); `Props/C13` proves them equal to the
-    `%`-level definitions (`reduce_kernels`, `mul_sqr_kernels`, `inv_div_kernels`) -/
+    `%`-level definitions (`reduce_kernels`, `mul_sqr_kernels`, `inv_div_kernels`).
+    Round 5: multi-word rings run `rem_large` / `mul_normalized` on word buffers through C02's mirrored
+    `div_rem_in_place` (`ModLargeK.lean`), single- and double-word `inv` runs num-modular's `invm` with machine
+    arithmetic (`ModInvm.lean`); `Props/C13Link` proves them equal to the same definitions
+    (`reduce_kernels_all`, `mul_sqr_kernels_all`, `inv_div_kernels_all`, `pow_kernels_all`; `pow` of multi-word rings runs
+    the windowed loop on buffers below `powBufferBudget`) -/
 def dispatchC13 : Dispatch := fun W op args =>
   match op, args with
   | "m.reduce", [m, a] => do
     let m ← parseNat m; let a ← parseInt a
     pure <| withRing W m fun r =>
-      let e := reduceIntK W r a
+      let e := reduceIntKL W r a
       chk ("ok " ++ resStr e ++ " " ++ natToHex e.modulus ++ validMark e)
           ("ok " ++ natToHex (emodNat a m) ++ " " ++ natToHex m) ++ ann (redTag W r a)
   | "m.add", [m, a, b] | "m.sub", [m, a, b] | "m.mul", [m, a, b] => do
     let m ← parseNat m; let a ← parseInt a; let b ← parseInt b
     let o := (op.drop 2).toString
     pure <| withRing W m fun r =>
-      let x := reduceIntK W r a; let y := reduceIntK W r b
+      let x := reduceIntKL W r a; let y := reduceIntKL W r b
       let res := match o with
-        | "add" => x.add y | "sub" => x.sub y | _ => x.mulK W y
+        | "add" => x.add y | "sub" => x.sub y | _ => x.mulKL W y
       chk (exc (fun e => resStr e ++ validMark e) res) ("ok " ++ natToHex (emodNat (binSpec o a b) m))
         ++ ann (if o = "mul" then mulTag W r x.raw y.raw
                 else o ++ "." ++ kindStr r.kind ++ (if o = "add" then (if x.raw + y.raw ≥ r.M then ".sub" else ".nosub")
@@ -102,12 +111,12 @@ def dispatchC13 : Dispatch := fun W op args =>
   | "m.div", [m, a, b] => do
     let m ← parseNat m; let a ← parseInt a; let b ← parseInt b
     pure <| withRing W m fun r =>
-      let x := reduceIntK W r a; let y := reduceIntK W r b
-      let model := exc (fun e => resStr e ++ validMark e) (x.divK W y)
+      let x := reduceIntKL W r a; let y := reduceIntKL W r b
+      let model := exc (fun e => resStr e ++ validMark e) (x.divKA W y)
       -- spec: defined iff gcd(b, m) = 1, and then q is the unique residue with q·b ≡ a
       let spec :=
         if Nat.gcd (emodNat b m) m = 1 then
-          match x.divK W y with
+          match x.divKA W y with
           | .ok q => if (q.residue * emodNat b m) % m = emodNat a m ∧ q.residue < m then "ok " ++ resStr q
                      else "ok <q with q*b = a mod m>"
           | .error _ => "ok <q with q*b = a mod m>"
@@ -116,23 +125,23 @@ def dispatchC13 : Dispatch := fun W op args =>
   | "m.neg", [m, a] => do
     let m ← parseNat m; let a ← parseInt a
     pure <| withRing W m fun r =>
-      let e := (reduceIntK W r a).neg
+      let e := (reduceIntKL W r a).neg
       chk ("ok " ++ resStr e ++ validMark e) ("ok " ++ natToHex (emodNat (-a) m))
   | "m.dbl", [m, a] => do
     let m ← parseNat m; let a ← parseInt a
     pure <| withRing W m fun r =>
-      let e := (reduceIntK W r a).dbl
+      let e := (reduceIntKL W r a).dbl
       chk ("ok " ++ resStr e ++ validMark e) ("ok " ++ natToHex (emodNat (2 * a) m))
   | "m.sqr", [m, a] => do
     let m ← parseNat m; let a ← parseInt a
     pure <| withRing W m fun r =>
-      let x := reduceIntK W r a
-      let e := x.sqrK W
+      let x := reduceIntKL W r a
+      let e := x.sqrKL W
       chk ("ok " ++ resStr e ++ validMark e) ("ok " ++ natToHex (emodNat (a * a) m)) ++ ann ("sqr." ++ mulTag W r x.raw x.raw)
   | "m.pow", [m, a, e] => do
     let m ← parseNat m; let a ← parseInt a; let e ← parseNat e
     pure <| withRing W m fun r =>
-      let x := (reduceIntK W r a).powK W e
+      let x := (reduceIntKL W r a).powKL W e
       -- spec by square-and-multiply on residues (a^e itself would be astronomically large)
       let base := emodNat a m
       let spec := Id.run do
@@ -146,14 +155,14 @@ def dispatchC13 : Dispatch := fun W op args =>
   | "m.inv", [m, a] => do
     let m ← parseNat m; let a ← parseInt a
     pure <| withRing W m fun r =>
-      let x := reduceIntK W r a
-      let model := match x.invK W with
+      let x := reduceIntKL W r a
+      let model := match x.invKP W with
         | .error k => "panic " ++ k.name
         | .ok none => "ok none"
         | .ok (some i) => "ok some " ++ resStr i ++ validMark i
       let spec :=
         if Nat.gcd (emodNat a m) m = 1 then
-          match x.invK W with
+          match x.invKP W with
           | .ok (some i) => if (i.residue * emodNat a m) % m = 1 % m ∧ i.residue < m then "ok some " ++ resStr i
                       else "ok some <x with a*x = 1 mod m>"
           | _ => "ok some <x with a*x = 1 mod m>"
@@ -162,18 +171,18 @@ def dispatchC13 : Dispatch := fun W op args =>
   | "m.eq", [m, a, b] => do
     let m ← parseNat m; let a ← parseInt a; let b ← parseInt b
     pure <| withRing W m fun r =>
-      chk (exc boolStr ((reduceIntK W r a).beq (reduceIntK W r b)))
+      chk (exc boolStr ((reduceIntKL W r a).beq (reduceIntKL W r b)))
           ("ok " ++ boolStr (emodNat a m == emodNat b m))
   | "m.mix", [o, m1, m2, a, b] => do
     let m1 ← parseNat m1; let m2 ← parseNat m2; let a ← parseInt a; let b ← parseInt b
     match Ring.new W 1 m1, Ring.new W 2 m2 with
     | .ok r1, .ok r2 =>
-      let x := reduceIntK W r1 a; let y := reduceIntK W r2 b
+      let x := reduceIntKL W r1 a; let y := reduceIntKL W r2 b
       let model ← match o with
         | "add" => some (exc resStr (x.add y))
         | "sub" => some (exc resStr (x.sub y))
-        | "mul" => some (exc resStr (x.mulK W y))
-        | "div" => some (exc resStr (x.divK W y))
+        | "mul" => some (exc resStr (x.mulKL W y))
+        | "div" => some (exc resStr (x.divKA W y))
         | "eq" => some (exc boolStr (x.beq y))
         | _ => none
       let spec := if o = "div" ∧ Nat.gcd (emodNat b m2) m2 ≠ 1 then "panic NonInvertible" else "panic DifferentRings"
@@ -184,37 +193,37 @@ def dispatchC13 : Dispatch := fun W op args =>
   | "r.transform", [m, a] => do
     let m ← parseNat m; let a ← parseNat a
     pure <| withRing W m fun r =>
-      let t := rawOfNatK W r a
+      let t := rawOfNatKL W r a
       chk ("ok " ++ natToHex (t / 2 ^ r.k) ++ " " ++ boolStr (rCheck r t) ++ " " ++ natToHex (r.M / 2 ^ r.k))
           ("ok " ++ natToHex (a % m) ++ " true " ++ natToHex m) ++ ann ("r." ++ redTag W r a)
   | "r.add", [m, a, b] | "r.sub", [m, a, b] | "r.mul", [m, a, b] => do
     let m ← parseNat m; let a ← parseNat a; let b ← parseNat b
     let o := (op.drop 2).toString
     pure <| withRing W m fun r =>
-      let x := rawOfNatK W r a; let y := rawOfNatK W r b
+      let x := rawOfNatKL W r a; let y := rawOfNatKL W r b
       let t := match o with
-        | "add" => rAdd r x y | "sub" => rSub r x y | _ => mulRawK W r x y
+        | "add" => rAdd r x y | "sub" => rSub r x y | _ => mulRawKL W r x y
       chk ("ok " ++ natToHex (t / 2 ^ r.k) ++ " " ++ boolStr (rCheck r t))
           ("ok " ++ natToHex (emodNat (binSpec o a b) m) ++ " true")
   | "r.neg", [m, a] | "r.dbl", [m, a] | "r.sqr", [m, a] => do
     let m ← parseNat m; let a ← parseNat a
     let o := (op.drop 2).toString
     pure <| withRing W m fun r =>
-      let x := rawOfNatK W r a
+      let x := rawOfNatKL W r a
       let (t, s) : Nat × Int := match o with
-        | "neg" => (rNeg r x, -(a : Int)) | "dbl" => (rAdd r x x, 2 * (a : Int)) | _ => (sqrRawK W r x, (a : Int) * a)
+        | "neg" => (rNeg r x, -(a : Int)) | "dbl" => (rAdd r x x, 2 * (a : Int)) | _ => (sqrRawKL W r x, (a : Int) * a)
       chk ("ok " ++ natToHex (t / 2 ^ r.k) ++ " " ++ boolStr (rCheck r t))
           ("ok " ++ natToHex (emodNat s m) ++ " true")
   | "r.inv", [m, a] => do
     let m ← parseNat m; let a ← parseNat a
     pure <| withRing W m fun r =>
-      let x := rawOfNatK W r a
-      let model := match invRawK W r x with
+      let x := rawOfNatKL W r a
+      let model := match invRawKP W r x with
         | .error k => "panic " ++ k.name
         | .ok none => "ok none"
         | .ok (some t) => "ok some " ++ natToHex (t / 2 ^ r.k) ++ " " ++ boolStr (rCheck r t)
       let spec := if Nat.gcd (a % m) m = 1 then
-          (match invRawK W r x with
+          (match invRawKP W r x with
            | .ok (some t) => if ((t / 2 ^ r.k) * (a % m)) % m = 1 % m then "ok some " ++ natToHex (t / 2 ^ r.k) ++ " true"
                        else "ok some <inverse>"
            | _ => "ok some <inverse>")
@@ -223,7 +232,7 @@ def dispatchC13 : Dispatch := fun W op args =>
   | "r.pow", [m, a, e] => do
     let m ← parseNat m; let a ← parseNat a; let e ← parseNat e
     pure <| withRing W m fun r =>
-      let t := powRawK W r (rawOfNatK W r a) e
+      let t := powRawKL W r (rawOfNatKL W r a) e
       let spec := Id.run do
         let mut acc := 1 % m
         for i in [0:bitLen e] do
@@ -235,7 +244,7 @@ def dispatchC13 : Dispatch := fun W op args =>
   | "r.iszero", [m, a] => do
     let m ← parseNat m; let a ← parseNat a
     pure <| withRing W m fun r =>
-      chk ("ok " ++ boolStr (rawOfNatK W r a == 0)) ("ok " ++ boolStr (a % m == 0))
+      chk ("ok " ++ boolStr (rawOfNatKL W r a == 0)) ("ok " ++ boolStr (a % m == 0))
   | _, _ => none
 
 
@@ -261,7 +270,11 @@ def gcdExtSpec (a b : Int) : String :=
   if a = 0 ∧ b = 0 then "panic GcdZeroZero" else "ok " ++ natToHex (Nat.gcd a.natAbs b.natAbs) ++ " ok"
 
 /-- relational spec of a floor root, decided by evaluation -/
-def isRoot (x n s : Nat) : Bool := s ^ n ≤ x && x < (s + 1) ^ n
+def isRoot (x n s : Nat) : Bool :=
+  -- a degree above the bit length (`x < 2^n`; C12 E1: n up to usize::MAX) is decided without powering:
+  -- the floor root is 0 for x = 0 and 1 otherwise (`s ≥ 2 ⇒ s^n ≥ 2^n > x`)
+  if n > bitLen x then (s == 0 && x == 0) || (s == 1 && x != 0)
+  else s ^ n ≤ x && x < (s + 1) ^ n
 
 def rootOut (x n : Nat) : Except PanicKind Nat → String
   | .error k => "panic " ++ k.name
